@@ -437,7 +437,7 @@ func c13Gen(r *core.Run) *c13Case {
 		c.Mime = "application/pkcs7-mime"
 	case "cli":
 		// the whole standalone command: relic sign -k key -f in -o out
-		c.Cli = genSignCase(t, "cli", []string{"ps", "pe-coff", "cat", "msi", "jar", "appmanifest", "deb", "cab", "vsix", "mach-o"})
+		c.Cli = genSignCase(t, "cli", []string{"ps", "pe-coff", "cat", "msi", "jar", "appmanifest", "deb", "cab", "vsix", "mach-o", "apk", "appx", "rpm", "dmg", "xar"})
 		c.In = c.Cli.Input
 		c.CliKey = core.Pick(t, "cli-key", "rsa", "ec")
 		if c.Cli.PGP {
